@@ -57,6 +57,13 @@ Monitors
                              deviation; an estimate that is identical in all K calls AND differs from the exact mean is
                              reported separately (deterministic => biased; no statistics involved);
   nonlin_stat              : the same non-linear functions through voxel.emissivity_from_function.
+  hist_identity / _kept /  : histories of 3..8 emissivities_from_function calls (constants of different values, linear, non-linear;
+  _fresh / _share / _post    grid_samples 1..20000) on 1..3 grids alive together, the caller KEEPING every returned vector: each kept
+                             vector must be bit-identical to what it was when returned and is re-judged at the end (constants exact,
+                             statistical bound otherwise), vectors of different calls must not share memory, and after the caller
+                             overwrites all of them a new call must still be exact;
+  alias_returned           : modifying the Point2D list returned by .vertices or the Point2D returned by .cross_section_centroid
+                             must not change the voxel.
 Sampling runs in a forked child so that a crash of the unchecked triangle lookup becomes a violation, not a dead worker.
 """
 import json
@@ -113,7 +120,8 @@ REQUIRED = {"area": 500, "centroid": 1000, "volume": 600, "volume_self": 450, "o
             "grid_exact": 8, "emis_const": 15, "emis_stat": 10, "emis_range": 12, "emis_inside": 20000,
             "nearrect_stat": 100, "nearrect_inside": 20000, "nearrect_order": 6, "alias_caller": 18, "alias_unchanged": 20,
             "gridseq_total": 60, "scale_homog": 60, "emisorder_stat": 100, "emisorder_inside": 5000, "emisorder_order": 8,
-            "seq_stat": 60, "seq_inside": 50000, "seq_tri": 150, "gridemis_stat": 10, "gridemis_vary": 10, "nonlin_stat": 10}
+            "seq_stat": 60, "seq_inside": 50000, "seq_tri": 150, "gridemis_stat": 10, "gridemis_vary": 10, "nonlin_stat": 10,
+            "hist_identity": 15, "hist_kept": 50, "hist_fresh": 50, "hist_share": 4, "hist_post": 6, "alias_returned": 15}
 
 EPS = 2.0 ** -52
 PI_CODE = 3.141592653589793
@@ -403,19 +411,52 @@ def gen_case(rng, tier):
         return _gen_scale(rng, tier)
     if u < 0.46:
         return _gen_grid(rng, tier)
-    if u < 0.60:
+    if u < 0.58:
         return _gen_emis(rng, tier)
-    if u < 0.69:
+    if u < 0.67:
         return _gen_emisorder(rng, tier)
-    if u < 0.75:
+    if u < 0.73:
         return _gen_nearrect(rng, tier)
-    if u < 0.82:
+    if u < 0.79:
         return _gen_alias(rng, tier)
-    if u < 0.88:
+    if u < 0.84:
         return _gen_gridseq(rng, tier)
-    if u < 0.95:
+    if u < 0.91:
         return _gen_seq(rng, tier)
-    return _gen_gridemis(rng, tier)
+    if u < 0.96:
+        return _gen_gridemis(rng, tier)
+    return _gen_gridhist(rng, tier)
+
+
+def _local_frame(cells):
+    A = np.array([v for q in cells for v in q])
+    r0, z0 = float(A[:, 0].mean()), float(A[:, 1].mean())
+    L = float(2.0 ** math.ceil(math.log2(max(np.abs(A[:, 0] - r0).max(), np.abs(A[:, 1] - z0).max()))))
+    return r0, z0, L
+
+
+def _gen_gridhist(rng, tier):
+    """history of emissivities_from_function calls on one or several grids; every returned vector is kept by the caller"""
+    grids = []
+    for _ in range(int(rng.integers(1, 4))):
+        if rng.random() < 0.5:
+            grids.append([gen_polygon(rng)[1] for _ in range(int(rng.integers(1, 6)))])
+        else:
+            grids.append(_gen_grid(rng, tier)["cells"][:int(rng.integers(1, 9))])
+    calls = []
+    for _ in range(int(rng.integers(3, 9))):
+        g = int(rng.integers(len(grids)))
+        k = int(rng.integers(4))
+        if k <= 1:
+            f = dict(type="const", a=float(rng.choice([3.0, 7.0, 0.1, -2.5, 1.0 / 3.0, float(rng.normal())])))
+        elif k == 2:
+            f = dict(type="linear", a=float(rng.normal()), b=float(rng.normal()), c=float(rng.normal()))
+        else:
+            r0, z0, L = _local_frame(grids[g])
+            ft = NONLIN_TYPES[int(rng.integers(len(NONLIN_TYPES)))]
+            f = dict(type="poly", name=ft, r0=r0, z0=z0, L=L, coef=_nonlin_coeffs(rng, ft))
+        calls.append(dict(g=g, f=f, gs=int(rng.choice([1, 10, 1000, 20000]))))
+    return dict(kind="gridhist", cls="gridhist", grids=grids, calls=calls, rs_seed=int(rng.integers(1, 2 ** 61)))
 
 
 SEQ_PATTERNS = ["more-vertices-smaller-area-first", "increasing-vertex-count", "interleaved", "random"]
@@ -888,6 +929,14 @@ def fixed_cases(tier):
         out.append(dict(kind="gridemis", cls=ft, cells=three, prim="csg", gs=gs, K=6000 // gs, Nv=2000, rs_seed=40 + gs,
                         f=dict(r0=2.5, z0=0.5, L=2.0, coef=_nonlin_coeffs(np.random.default_rng(5), ft))))
     out += [
+        dict(kind="gridhist", cls="gridhist", grids=[three, cells[:4]], rs_seed=51, calls=[
+            dict(g=0, f=dict(type="const", a=3.0), gs=10), dict(g=0, f=dict(type="const", a=7.0), gs=10),
+            dict(g=1, f=dict(type="const", a=0.1), gs=1), dict(g=0, f=dict(type="linear", a=0.0, b=1.0, c=1.0), gs=20000),
+            dict(g=1, f=dict(type="linear", a=1.0, b=-1.0, c=2.0), gs=1000),
+            dict(g=0, f=dict(type="poly", name="r2", r0=2.5, z0=0.5, L=2.0, coef=[[2, 0, 1.0]]), gs=20000),
+            dict(g=0, f=dict(type="const", a=-2.5), gs=1)]),
+    ]
+    out += [
         dict(kind="gridseq", cls="gridseq", cells=cells[:6], prim="csg", ctor_active="all", ctor_parent=None,
              ops=[["set_active", 2], ["read"], ["set_active", "all"], ["unparent_all_voxels"], ["parent_all_voxels"],
                   ["grid_parent", 0], ["voxel_parent", 1, "none"], ["grid_parent", None], ["set_active", 0]]),
@@ -1035,6 +1084,8 @@ def run_case(case, ctx):
         return _run_seq(case, ctx)
     if kind == "gridemis":
         return _run_gridemis(case, ctx)
+    if kind == "gridhist":
+        return _run_gridhist(case, ctx)
     raise ValueError("unknown case kind %r" % kind)
 
 
@@ -1572,6 +1623,18 @@ def _run_alias(case, ctx):
                       "area / centroid / volume / vertices of an existing voxel changed when the caller modified its own "
                       "vertex container afterwards (voxel shares memory with the input)", monitor="alias_unchanged",
                       op=op, before=st0[:4], after=st1[:4], **det)
+        # objects RETURNED by the voxel are the caller's to modify as well
+        vs = v.vertices
+        for pt in vs:
+            pt.x, pt.y = pt.x * 5 + 1, -pt.y
+        vs.reverse()
+        cc = v.cross_section_centroid
+        cc.x, cc.y = -1.0, 1e9
+        st2 = _voxel_state(v, safe=True)
+        ctx.check(st2 == st0, "aliasing:voxel-changes-after-caller-modified-returned-vertices-or-centroid",
+                  "area / centroid / volume / vertices of a voxel changed after the caller modified the list of Point2D "
+                  "returned by .vertices or the Point2D returned by .cross_section_centroid", monitor="alias_returned",
+                  before=st0[:4], after=st2[:4], **det)
     if case.get("reuse") and ck not in ("tuple_tuples",):
         # cells built one after another from one re-used scratch container
         # (refilled with the same polygon scaled by 1, 2 and 4: exact in every dtype, still simple)
@@ -2106,3 +2169,113 @@ def _run_gridemis(case, ctx):
         ctx.close(r["vox"][i], mu, "emissivity:nonlinear-mean-biased",
                   "voxel.emissivity_from_function of a non-linear function deviates from the exact area mean beyond the "
                   "p=2.6e-12 bound", atol=_bernstein(sigma, width, Nv) + rnd, monitor="nonlin_stat", N=Nv, **det)
+
+
+# ------------------------------------------------------------------------------------------------
+# history of grid-level results kept by the caller
+# ------------------------------------------------------------------------------------------------
+
+def _run_gridhist(case, ctx):
+    grids = [[[[float(a), float(b)] for a, b in q] for q in cells] for cells in case["grids"]]
+    calls = case["calls"]
+    ctx.cls("gridhist")
+    ctx.cls("gridhist-grids:%d" % len(grids))
+    for cells in grids:
+        for q in cells:
+            if not _certified(q, ctx):
+                return
+
+    def job():
+        from raysect.core.math.random import seed
+        from raysect.core.math.function.float import Arg3D
+        from cherab.tools.inversions import ToroidalVoxelGrid
+        try:
+            G = [ToroidalVoxelGrid(cells) for cells in grids]
+        except Exception as e:
+            raise _wrap_target(e)
+        seed(int(case["rs_seed"]))
+        kept, snaps = [], []
+        for cl in calls:
+            fd = cl["f"]
+            if fd["type"] == "const":
+                f = float(fd["a"])
+            elif fd["type"] == "linear":
+                f = fd["a"] + fd["b"] * Arg3D('x') + fd["c"] * Arg3D('z')
+            else:
+                f = _native_poly(fd)
+            try:
+                res = G[cl["g"]].emissivities_from_function(f, int(cl["gs"]))
+            except Exception as e:
+                raise _wrap_target(e)
+            kept.append(res)
+            snaps.append([float(x) for x in res])
+        final = [[float(x) for x in k] for k in kept]
+        share = [[i, j] for i in range(len(kept)) for j in range(i + 1, len(kept))
+                 if isinstance(kept[i], np.ndarray) and isinstance(kept[j], np.ndarray) and np.shares_memory(kept[i], kept[j])]
+        # the caller scribbles over everything it was given, then asks again
+        wrote = 0
+        for k in kept:
+            if isinstance(k, np.ndarray) and k.flags.writeable:
+                k[...] = -12345.678
+                wrote += 1
+        post = []
+        try:
+            for g in G:
+                post.append([float(x) for x in g.emissivities_from_function(7.25, 3)])
+        except Exception as e:
+            raise _wrap_target(e)
+        return dict(snaps=snaps, final=final, share=share, post=post, wrote=wrote,
+                    types=[type(k).__name__ for k in kept])
+
+    out = _in_child(job)
+    if "signal" in out:
+        ctx.viol("emissivity:grid:sampler-crash", "child died with signal %d inside emissivities_from_function" % out["signal"])
+        return
+    if "exc" in out:
+        _report_child_exception(out, ctx, "emissivities_from_function")
+        return
+    r = out["ok"]
+    ctx.nontrivial()
+    ncalls = len(calls)
+    for i, cl in enumerate(calls):
+        fd, gs, cells = cl["f"], int(cl["gs"]), grids[cl["g"]]
+        ft = fd["type"]
+        det = dict(call=i, of=ncalls, later_calls=ncalls - 1 - i, grid=cl["g"], function=fd.get("name", ft), grid_samples=gs)
+        same = r["snaps"][i] == r["final"][i] or (np.array_equal(np.array(r["snaps"][i]), np.array(r["final"][i]), equal_nan=True))
+        ctx.check(bool(same), "emissivity:grid:kept-result-changed-by-later-call",
+                  "the vector returned by an earlier emissivities_from_function call changed its contents when the method was "
+                  "called again (the results of different calls are the same array)", monitor="hist_identity",
+                  first_returned=r["snaps"][i][:4], now=r["final"][i][:4], **det)
+        for which, vec in (("call-result", r["snaps"][i]), ("kept-result", r["final"][i])):
+            mon = "hist_fresh" if which == "call-result" else "hist_kept"
+            if ft == "const":
+                ctx.close(np.array(vec), float(fd["a"]), "emissivity:grid:%s:constant-not-exact" % which,
+                          "emissivities_from_function of a constant: the vector %s is not the constant"
+                          % ("returned by the call" if which == "call-result" else "kept by the caller, re-read after later calls,"),
+                          rtol=(2 * gs + 4) * EPS, monitor=mon, const=float(fd["a"]), **det)
+                continue
+            for j, q in enumerate(cells):
+                if ft == "linear":
+                    ex = exact_moments(q)
+                    V = np.asarray(q, dtype=float)
+                    fv = fd["a"] + fd["b"] * V[:, 0] + fd["c"] * V[:, 1]
+                    mu = fd["a"] + fd["b"] * float(ex["cx"]) + fd["c"] * float(ex["cy"])
+                    var = fd["b"] ** 2 * float(ex["vxx"]) + fd["c"] ** 2 * float(ex["vyy"]) + 2 * fd["b"] * fd["c"] * float(ex["vxy"])
+                    sigma, width, fmax = math.sqrt(max(var, 0.0)), float(fv.max() - fv.min()), float(np.abs(fv).max() + abs(fd["a"]))
+                else:
+                    mu, sigma, width, fmax = nonlinear_stats(q, fd)
+                if sigma <= 1e-12 * fmax:
+                    continue
+                ctx.close(vec[j], mu, "emissivity:grid:%s:%s-mean-biased" % (which, "linear" if ft == "linear" else "nonlinear"),
+                          "emissivities_from_function: the value %s deviates from the area mean of the function it was computed "
+                          "for beyond the p=2.6e-12 bound" % ("returned by the call" if which == "call-result" else
+                                                              "in the vector kept by the caller, re-read after later calls,"),
+                          atol=_bernstein(sigma, width, gs) + max(gs, 64) * EPS * fmax + 1e-9 * fmax, monitor=mon,
+                          voxel=j, **det)
+    ctx.check(not r["share"], "emissivity:grid:results-of-different-calls-share-memory",
+              "vectors returned by different emissivities_from_function calls share memory", monitor="hist_share",
+              pairs=r["share"][:6], n_calls=ncalls)
+    for g, vec in enumerate(r["post"]):
+        ctx.close(np.array(vec), 7.25, "emissivity:grid:result-wrong-after-caller-wrote-into-earlier-results",
+                  "after the caller overwrote the vectors returned by earlier calls, emissivities_from_function of a constant "
+                  "is not the constant", rtol=10 * EPS, monitor="hist_post", grid=g, overwritten=r["wrote"])
